@@ -17,21 +17,22 @@ static defect_t DEF[] = {
 };
 #define NDEF (sizeof DEF / sizeof DEF[0])
 typedef struct { int status, c_hs, s_hs, sec_equal; } out_t; static out_t *XO; static char FAIL[32];
-static void run_exec(int proto, int mode /* 0 server defective, 1 client defective (mutual), 2 server defective and it requests a client certificate (mutual) */, const defect_t *d) { int who_is_defective = mode == 1; int mutual = mode != 0;
+static void run_exec(int proto, int mode /* 0 server defective, 1 client defective (mutual), 2 server defective and it requests a client certificate (mutual), 3 / 4 = 0 / 1 with the VERIFIER's trust list holding the genuine root plus six unrelated CA certificates (more than 2048 octets) */, const defect_t *d) { int big = mode >= 3; if (big) mode -= 3; int who_is_defective = mode == 1; int mutual = mode != 0;
 	memset(XO, 0, sizeof *XO); FAIL[0] = 0; fflush(stdout); pid_t pid = fork(); if (pid < 0) vh_harness_error("fork");
 	if (pid == 0) { if (!freopen("/dev/null", "w", stderr) || !freopen("/dev/null", "w", stdout)) {} alarm(30); static side_creds srv, cli; static ep_t c, s; memset(&c, 0, sizeof c); memset(&s, 0, sizeof s);
 		if (build_side(&srv, proto, 0, who_is_defective == 0 ? d->depth : 1, who_is_defective == 0 ? &d->df : NULL) != 1 || build_side(&cli, proto, 1, who_is_defective == 1 ? d->depth : 1, who_is_defective == 1 ? &d->df : NULL) != 1) _exit(3);
-		c.proto = s.proto = proto; c.is_client = 1; c.mutual = s.mutual = mutual; c.own = &cli; s.own = &srv; c.trust = &srv; s.trust = mutual ? &cli : NULL; c.entropy_key = 0xC11E17; s.entropy_key = 0x5E12BE12; c.entropy_fail_at = s.entropy_fail_at = -1;
+		c.proto = s.proto = proto; c.is_client = 1; c.mutual = s.mutual = mutual; c.own = &cli; s.own = &srv; c.trust = &srv; s.trust = mutual ? &cli : NULL;
+		if (big) { static side_creds bt; bt = who_is_defective ? cli : srv; uint8_t *p = bt.cacerts + bt.cacertslen; for (int u = 0; u < 6; u++) { cert_spec us; char cn[8]; snprintf(cn, sizeof cn, "U%d", u); spec_ca(&us, cn, -1); size_t n = 0; if (make_cert(&us, &CK[9], &CK[9], cn, p, &n) == 1 && (size_t)(p - bt.cacerts) + n <= sizeof bt.cacerts) p += n; } bt.cacertslen = (size_t)(p - bt.cacerts); if (who_is_defective) s.trust = &bt; else c.trust = &bt; } c.entropy_key = 0xC11E17; s.entropy_key = 0x5E12BE12; c.entropy_fail_at = s.entropy_fail_at = -1;
 		int cr, sr; XO->status = vnet_run2(ep_task, &c, ep_task, &s, &cr, &sr); XO->c_hs = c.hs_ret; XO->s_hs = s.hs_ret; XO->sec_equal = c.secrets_len == s.secrets_len && !memcmp(c.secrets, s.secrets, c.secrets_len); _exit(0); }
 	int st; while (waitpid(pid, &st, 0) < 0 && errno == EINTR) {} if (!WIFEXITED(st) || WEXITSTATUS(st)) snprintf(FAIL, sizeof FAIL, "%s", WIFSIGNALED(st) ? (WTERMSIG(st) == SIGALRM ? "hang" : "crash") : (WEXITSTATUS(st) == 3 ? "cannot-build" : "abnormal-exit")); }
 static uint64_t NSTATES, NTRANS;
 static void body(void) {
-	for (int p = 0; p < 3; p++) for (int mode = 0; mode < 3; mode++) { int who = mode == 1; char bn[64]; snprintf(bn, sizeof bn, "%s-%s-verifies-%s%s", PNAME[p], who ? "server" : "client", who ? "client" : "server", mode == 2 ? "-that-requests-a-client-certificate" : ""); if (!vh_block_begin(bn)) continue;
+	for (int p = 0; p < 3; p++) for (int mode = 0; mode < 5; mode++) { int who = (mode % 3) == 1; char bn[96]; snprintf(bn, sizeof bn, "%s-%s-verifies-%s%s", PNAME[p], who ? "server" : "client", who ? "client" : "server", mode == 2 ? "-that-requests-a-client-certificate" : mode >= 3 ? "-with-a-trust-list-over-2048-octets" : ""); if (!vh_block_begin(bn)) continue;
 		for (size_t di = 0; di < NDEF; di++) { if (!vh_next()) continue; const defect_t *d = &DEF[di]; if (d->only_tlcp_server && !(p == P_TLCP && who == 0)) continue; if (d->only_client && who == 0) continue;
 			run_exec(p, mode, d); int honest = !strncmp(d->name, "honest", 6); int verifier_done = who ? XO->s_hs == 1 : XO->c_hs == 1; size_t kk[3] = { (size_t)p, (size_t)mode, di }; vh_eval(vh_hash(kk, sizeof kk, 1)); NSTATES++; NTRANS += 2; char key[200];
 			if (!strcmp(FAIL, "cannot-build")) { vh_obs("credentials for defect %s cannot be built", d->name); continue; }
 			if (FAIL[0]) { snprintf(key, sizeof key, "C09:%s:%s:%s", bn, d->name, FAIL); vh_viol(key, "\"defect\":\"%s\"", d->name); continue; }
-			if (honest && !(XO->c_hs == 1 && XO->s_hs == 1 && XO->sec_equal)) { snprintf(key, sizeof key, "C09:%s:%s:honest-credentials-do-not-complete", bn, d->name); vh_viol(key, "\"c_hs\":%d,\"s_hs\":%d", XO->c_hs, XO->s_hs); }
+			if (honest && mode < 3 /* a trust list the connection cannot hold may be refused outright; what must not happen is that a defective peer is then accepted */ && !(XO->c_hs == 1 && XO->s_hs == 1 && XO->sec_equal)) { snprintf(key, sizeof key, "C09:%s:%s:honest-credentials-do-not-complete", bn, d->name); vh_viol(key, "\"c_hs\":%d,\"s_hs\":%d", XO->c_hs, XO->s_hs); }
 			if (!honest && verifier_done) { snprintf(key, sizeof key, "C09:%s:%s:verifier-completed", bn, d->name); vh_viol(key, "\"defect\":\"%s\",\"depth\":%d,\"c_hs\":%d,\"s_hs\":%d,\"secrets_equal\":%d", d->name, d->depth, XO->c_hs, XO->s_hs, XO->sec_equal); }
 			vh_sample("{\"block\":\"%s\",\"peer_credentials\":\"%s\",\"verifier_completed\":%d,\"peer_completed\":%d}", bn, d->name, verifier_done, who ? XO->c_hs == 1 : XO->s_hs == 1); } }
 	printf("STAT states=%llu transitions=%llu executions=%llu\n", (unsigned long long)NSTATES, (unsigned long long)NTRANS, (unsigned long long)NSTATES);
